@@ -465,6 +465,29 @@ theorem stdTx_injective (pre : Bytes) (t u : StdTxRec) (ht : StdTxInRange t) (hu
   subst em ef ememo eent' h3 h4
   rfl
 
+/-- the range of an account record -/
+def AccountInRange (a : AccountRec) : Prop :=
+  a.addr.length < 2 ^ 64 ∧ (∀ c ∈ a.coins, c.amount.natAbs < 2 ^ 255 ∧ c.denom.length < 2 ^ 63) ∧ a.pk.length < 2 ^ 64
+
+/-- two stored accounts with the same bytes are the same account: address, every coin, key -/
+theorem account_injective (pre : Bytes) (a b : AccountRec) (ha : AccountInRange a) (hb : AccountInRange b)
+    (e : encodeAccount pre a = encodeAccount pre b) : a = b := by
+  unfold encodeAccount at e
+  have ec := List.append_cancel_left e
+  have d1 := decodeMFT_encodeMFT a.addr a.coins [.bytes a.pk] ha.1 ha.2.1 (by simp) (by
+    intro f hf; simp only [List.mem_cons, List.not_mem_nil, or_false] at hf; subst hf; exact ha.2.2)
+  have d2 := decodeMFT_encodeMFT b.addr b.coins [.bytes b.pk] hb.1 hb.2.1 (by simp) (by
+    intro f hf; simp only [List.mem_cons, List.not_mem_nil, or_false] at hf; subst hf; exact hb.2.2)
+  have hk : ([Fld.bytes a.pk].map Fld.kind) = ([Fld.bytes b.pk].map Fld.kind) := rfl
+  rw [ec, hk, d2] at d1
+  simp only [Option.some.injEq, Prod.mk.injEq, List.cons.injEq, Fld.bytes.injEq, and_true] at d1
+  obtain ⟨e1, e2, e3⟩ := d1
+  obtain ⟨a1, a2, a3⟩ := a
+  obtain ⟨b1, b2, b3⟩ := b
+  simp only at e1 e2 e3
+  subst e1 e2 e3
+  rfl
+
 /-- non-vacuity: a transfer with a two-coin fee, a key, a signature, a memo and a negative entropy is in range -/
 example : StdTxInRange ⟨[1, 2, 3], [⟨[97, 98, 99], 9⟩, ⟨[117], 5⟩], [7], [9, 9], [109], -3⟩ := by
   unfold StdTxInRange
@@ -521,6 +544,11 @@ theorem stake_upgrade_shape :
     Generated.schemaMsgUpgrade.map (·.2) = ["sdk.Address", "Upgrade"] ∧
     Generated.schemaUpgrade.map (fun f => wireOf f.2) = [some false, some true] := by
   simp [Generated.schemaMsgStake, Generated.schemaMsgUpgrade, Generated.schemaUpgrade, wireOf]
+
+/-- the stored account: address, coins (repeated), key - the layout of `encodeAccount` -/
+theorem account_shape :
+    Generated.schemaBaseAccount.map (·.2) = ["sdk.Address", "sdk.Coins", "crypto.PublicKey"] := by
+  simp [Generated.schemaBaseAccount]
 
 /-- the transaction: message, repeated fee, signature struct (key, bytes), memo, entropy - the layout of `encodeStdTx` -/
 theorem stdTx_shape :
